@@ -208,3 +208,27 @@ Print Assumptions c18_kept_cell_stable.
 Print Assumptions c18_served_cell.
 Print Assumptions c18_scribbled_cell_stable.
 Print Assumptions c18_session_scenario.
+
+(* ---- re-exported by tools/reexport.py: statements copied from `Check`, closed by `exact` ---- *)
+From QV Require Import ErrorModels.FilePaths.
+Theorem c18_path_noninterference : forall (clash : list str) (os : list pop) (w : pworld) (j : nat) (s : bstate), nth_error (slots w) j = Some (Some s) -> existsb (drops j) os = false -> pouts_of j (fst (prun clash w os)) = run_calls reader pull clash s (pcalls_of j os).
+Proof. exact path_noninterference. Qed.
+Theorem c18_failed_open_silent : forall (clash : list str) (os : list pop) (w : pworld) (j : nat), nth_error (slots w) j = Some None -> pouts_of j (fst (prun clash w os)) = [].
+Proof. exact failed_open_silent. Qed.
+Theorem c18_open_sees_current : forall (clash : list str) (w : pworld) (p : nat) (sa : start_arg), fst (pstep clash w (POpen p sa)) = Some (EOpen (length (slots w)) (fst (scenario (file_at p (pfs w)) sa clash []))) /\ nth_error (slots (snd (pstep clash w (POpen p sa)))) (length (slots w)) = Some (slot_of (init (file_at p (pfs w)) sa clash)).
+Proof. exact open_sees_current. Qed.
+Theorem c18_path_session_scenario : forall (clash : list str) (w : pworld) (p : nat) (sa : start_arg) (post : list pop), let j := length (slots w) in let f := file_at p (pfs w) in existsb (drops j) post = false -> exists evs : list pevent, fst (prun clash w (POpen p sa :: post)) = EOpen j (fst (scenario f sa clash (pcalls_of j post))) :: evs /\ pouts_of j evs = snd (scenario f sa clash (pcalls_of j post)).
+Proof. exact path_session_scenario. Qed.
+Theorem c18_file_at_last_write : forall (pre : list pop) (p : nat) (f : option (list line)) (post : list pop) (fs : fsys), existsb (writes_to p) post = false -> file_at p (fs_after fs (pre ++ PWrite p f :: post)) = f.
+Proof. exact file_at_last_write. Qed.
+Theorem c18_reopen_after_rewrite : forall (clash : list str) (w : pworld) (pre : list pop) (p : nat) (f' : option (list line)) (mid : list pop) (sa : start_arg) (post : list pop), existsb (writes_to p) mid = false -> let w1 := snd (prun clash w (pre ++ PWrite p f' :: mid)) in let j := length (slots w1) in existsb (drops j) post = false -> exists evs0 evs : list pevent, fst (prun clash w (pre ++ PWrite p f' :: mid ++ POpen p sa :: post)) = evs0 ++ EOpen j (fst (scenario f' sa clash (pcalls_of j post))) :: evs /\ pouts_of j evs = snd (scenario f' sa clash (pcalls_of j post)).
+Proof. exact reopen_after_rewrite. Qed.
+Theorem c18_same_contents_same_answers : forall (clash : list str) (w : pworld) (p q : nat) (sa : start_arg) (post : list pop), file_at p (pfs w) = file_at q (pfs w) -> fst (prun clash w (POpen p sa :: post)) = fst (prun clash w (POpen q sa :: post)).
+Proof. exact same_contents_same_answers. Qed.
+Print Assumptions c18_path_noninterference.
+Print Assumptions c18_failed_open_silent.
+Print Assumptions c18_open_sees_current.
+Print Assumptions c18_path_session_scenario.
+Print Assumptions c18_file_at_last_write.
+Print Assumptions c18_reopen_after_rewrite.
+Print Assumptions c18_same_contents_same_answers.
